@@ -127,6 +127,10 @@ pub struct EvSc {
 	/// (the window ends strictly between two ticks) — "for all throttle durations"
 	#[serde(default)]
 	pub sub_ms: bool,
+	/// the run-time throttle change is made by replacing the public field
+	/// (`config.throttle.replace(..)`, no change notification) instead of `Config::throttle()`
+	#[serde(default)]
+	pub raw_throttle_change: bool,
 	pub gated: bool,
 	pub horizon: u64,
 	pub errh: ErrBeh,
@@ -137,7 +141,7 @@ pub struct EvSc {
 
 impl EvSc {
 	pub fn base(script: Vec<(Ev, u8)>, throttle: u64) -> Self {
-		EvSc { script, chan: 4096, err_chan: 64, throttle, throttle_change: None, sub_ms: false, gated: false, horizon: throttle + 2, errh: ErrBeh::Record, slow_errh: false }
+		EvSc { script, chan: 4096, err_chan: 64, throttle, throttle_change: None, sub_ms: false, raw_throttle_change: false, gated: false, horizon: throttle + 2, errh: ErrBeh::Record, slow_errh: false }
 	}
 }
 
@@ -597,7 +601,11 @@ async fn body(sc: &EvSc, bounds: Bounds, prop: &str) -> Obs {
 			Act::SetThrottle => {
 				let t = throttle_pending.take().unwrap();
 				w(|x| x.log.push(L::Throttle { ticks: t, t: now }));
-				wx.config.throttle(throttle_duration(sc, t));
+				if sc.raw_throttle_change {
+					wx.config.throttle.replace(throttle_duration(sc, t));
+				} else {
+					wx.config.throttle(throttle_duration(sc, t));
+				}
 			}
 		}
 	}
@@ -1125,6 +1133,9 @@ pub fn scenarios(prop: &str, tier: Tier) -> Vec<(EvSc, Vec<Bounds>)> {
 							let mut c = sc.clone();
 							c.throttle_change = Some(to);
 							out.push((c.clone(), passes.clone()));
+							let mut raw = c.clone();
+							raw.raw_throttle_change = true;
+							out.push((raw, ladder(0)));
 							if to > 0 {
 								c.sub_ms = true;
 								out.push((c, ladder(0)));
